@@ -46,7 +46,9 @@ def build(tier, seed):
         'cases': cases,
         'rule': 'prefix tree of all words over the alphabet up to the length bound (pool case = sub-tree); crossings on every '
                 'word (also constant / all-zero), switched peaks on every non-constant word; x keep_adj_zeros {T,F} x tol '
-                '{0,0.5,1.5} x input {float64,int64,list}; non-trivial = non-constant word',
+                '{0} + %s x input {float64,int64,list} (+ int16 x100, amplitudes 1e-9 / 1e-170 / 1e300, signal objects reused after an '
+                'edit for short words); stretched family: every word of the stated length with each sample held for k steps, float64, '
+                'tol {0,0.5,1.5}; non-trivial = non-constant word' % (list(TOLS),),
         'bounds': bounds,
         'required_classes': ['adjacent-zeros', 'leading-zero', 'sign-change-without-zero', 'first-excursion-starts-at-0',
                              'first-excursion-max-at-0', 'excursion-3-levels', 'tie-in-excursion', 'zero-valued-reported',
